@@ -115,6 +115,14 @@ def added_over_file(section, variant, pick=lambda k, v: True):
   return f
 
 
+def entry_set(items, section, key_prefix, fn):
+  for kv in bm.sec(items, section)[1]:
+    if kv[0].startswith(key_prefix):
+      kv[1] = fn(kv[1])
+      return kv
+  return None
+
+
 def dup_section(section, variant):
   """A second SECTION whose header differs from an existing one only in white space, defining one of its keys again."""
   def f(items, info, rng):
@@ -186,6 +194,12 @@ OPS = [
   ("table_form_label_case_variant_of_custom_form", "*", table_named(lambda rng: rng.choice(["CF", "Other", "OTHER"]))),
   ("table_form_labels_differ_only_in_case", "*", table_named(lambda rng: rng.choice(["TBL", "Tbl"]))),
   ("table_form_label_case_variant_of_builtin", "*", table_named(lambda rng: rng.choice(["AS.bornmayer", "as.Morse", "As.buck4"]))),
+  # a label that the expression language already uses for one of its own functions (also in another case): a formula
+  # calling it gets the built-in, not the definition the user can see
+  ("custom_form_named_like_expression_builtin", "*", lambda items, info, rng: (lambda nm: (bm.sec(items, "Potential-Form")[1].insert(0, ["%s(r, k)" % nm, "777.0 + 0*r + 0*k"]),
+      entry_set(items, "Potential-Form", "cf", lambda v: v.replace("other(r,", "%s(r," % nm)), (items, "built-in %s" % nm, "%s(r, k)" % nm))[2])(rng.choice(["pow", "mod", "Max", "Hypot", "shl", "logn", "ATAN2", "roundn"]))),
+  ("table_form_named_like_expression_builtin", "*", lambda items, info, rng: (lambda nm: (items.append(["Table-Form:%s" % nm, [["x", "0 1 2 3 4 10"], ["y", "777 777 777 777 777 777"]]]),
+      entry_set(items, "Potential-Form", "cf", lambda v: v + " + 0*%s(r)" % nm), (items, "built-in %s" % nm, "Table-Form:%s" % nm))[2])(rng.choice(["Exp", "sqrt", "ABS", "Cos", "erfc"]))),
   ("pair_section_header_whitespace_variant", "*", dup_section("Pair", HDR_WS)),
   ("embed_section_header_whitespace_variant", "eam fs adp", dup_section("EAM-Embed", HDR_WS)),
   ("density_section_header_whitespace_variant", "eam fs adp", dup_section("EAM-Density", HDR_WS)),
